@@ -3,6 +3,7 @@ package mocrelay_test
 import (
 	"context"
 	"fmt"
+	"math"
 	"math/rand/v2"
 	"strconv"
 	"strings"
@@ -306,7 +307,7 @@ func (s *c18Session) clientMsg(k int) mocrelay.ClientMsg {
 	case "CLOSE":
 		return &mocrelay.ClientCloseMsg{SubscriptionID: st.ID}
 	case "EVENT":
-		return &mocrelay.ClientEventMsg{Event: &mocrelay.Event{ID: st.ID, Pubkey: vk.FakePub(s.idx), Kind: 1, Tags: []mocrelay.Tag{}, Content: s.tag(k)}}
+		return &mocrelay.ClientEventMsg{Event: &mocrelay.Event{ID: st.ID, Pubkey: vk.FakePub(s.idx), Kind: c18KindOf(st.ID), Tags: []mocrelay.Tag{}, Content: s.tag(k)}}
 	}
 	return nil
 }
@@ -387,7 +388,7 @@ steps:
 		key := st.Kind + "\x00" + st.ID
 		s.byKind[key] = append(s.byKind[key], k)
 		if st.Kind == "SEVENT" {
-			ev := mocrelay.NewServerEventMsg(st.Sub, &mocrelay.Event{ID: st.ID, Pubkey: vk.FakePub(s.idx), Kind: 1, Tags: []mocrelay.Tag{}, Content: s.tag(k)})
+			ev := mocrelay.NewServerEventMsg(st.Sub, &mocrelay.Event{ID: st.ID, Pubkey: vk.FakePub(s.idx), Kind: c18KindOf(st.ID), Tags: []mocrelay.Tag{}, Content: s.tag(k)})
 			ok := hand(k, func(t <-chan time.Time) bool {
 				select {
 				case s.cmd <- ev:
@@ -830,6 +831,16 @@ func (s *c18Session) judge(rep *vk.Report, g *c18Group) {
 // ---------------------------------------------------------------------------
 // generation
 
+// c18KindOf gives every event id a kind of its own class (regular, ephemeral, replaceable,
+// addressable): the windows are about ids, whatever the kind.
+func c18KindOf(id string) int64 {
+	h := 0
+	for i := 0; i < len(id); i++ {
+		h = h*31 + int(id[i])
+	}
+	return []int64{1, 20001, 0, 30000, 29999, 7, 10002, 5}[(h%8+8)%8]
+}
+
 func c18Clamp(v, lo, hi int) int {
 	if v < lo {
 		return lo
@@ -862,13 +873,16 @@ func c18GenGroup(gi int, r *rand.Rand) *c18Group {
 		switch p {
 		case 0:
 			g.Stack.N = 1 + r.IntN(4)
+			if r.IntN(12) == 0 {
+				g.Stack.N = math.MaxInt // "all N": the natural spelling of "no quota"
+			}
 		case 1:
 			g.Stack.RecvSize = 1 + r.IntN(4)
 		case 2:
 			g.Stack.SendSize = 1 + r.IntN(4)
 		}
 	}
-	nSub := c18Clamp(max(g.Stack.N, 1)+r.IntN(4)-1, 2, 6)
+	nSub := c18Clamp(max(min(g.Stack.N, 4), 1)+r.IntN(4)-1, 2, 6)
 	wsz := max(g.Stack.RecvSize, g.Stack.SendSize, 1)
 	// mostly more ids than the window holds, so that ids leave the window and come back
 	nEv := c18Clamp(wsz+1+r.IntN(3), 2, 6)
@@ -996,7 +1010,7 @@ func (g *c18Group) run() {
 
 func TestVerif_C18(t *testing.T) {
 	rep := vk.NewReport(t, "C18", "exploration")
-	rep.Rule = "a case is one session: a sequential REQ/CLOSE/COUNT/EVENT script (10-80 messages) plus EVENTs sent by the recording downstream handler, over alphabets of 2-6 subscription ids and 2-6 event ids, run through one shared middleware value (quota N in 1..4, receive window 1..4, send window 1..4, alone or stacked in random order) together with 1-5 other sessions using the same ids, sometimes followed by a second wave of sessions on the same value; each step's outcome (seen downstream / CLOSED / OK-false / delivered / suppressed; in half of the sessions the downstream handler answers three quarters of the EVENTs that reach it with a tagged OK, accepted or refused, with and without machine-readable prefix, which the client waits for before the next message and which the models ignore) is compared with the session's own open-set and last-size-distinct-ids models; non-trivial = the session reached a quota or window boundary (a REQ that had to be refused, a repeat inside the window, or an id that had left the window); distinct = distinct (stack, per-step kind/id/outcome string)"
+	rep.Rule = "a case is one session: a sequential REQ/CLOSE/COUNT/EVENT script (10-80 messages) plus EVENTs sent by the recording downstream handler, over alphabets of 2-6 subscription ids and 2-6 event ids, run through one shared middleware value (quota N in 1..4 or MaxInt, receive window 1..4, send window 1..4, alone or stacked in random order) together with 1-5 other sessions using the same ids, sometimes followed by a second wave of sessions on the same value; each step's outcome (seen downstream / CLOSED / OK-false / delivered / suppressed; in half of the sessions the downstream handler answers three quarters of the EVENTs that reach it with a tagged OK, accepted or refused, with and without machine-readable prefix, which the client waits for before the next message and which the models ignore) is compared with the session's own open-set and last-size-distinct-ids models; non-trivial = the session reached a quota or window boundary (a REQ that had to be refused, a repeat inside the window, or an id that had left the window); distinct = distinct (stack, per-step kind/id/outcome string)"
 	defer rep.Finish()
 
 	nGroups := vk.N(3000, 60000)
